@@ -1,0 +1,83 @@
+// Copyright (c) 2026 10X Genomics, Inc. All rights reserved.
+
+//go:build verif
+
+package core
+
+// Hooks for the external verification harness, property C12, fourth group:
+// the availability-update path LocalJobManager.refreshResources, and the
+// observations it is computed from, read with the same functions.
+// This file is only compiled with `-tags verif`.
+
+import (
+	"os"
+	"runtime"
+)
+
+// VerifNewProdLocalJobManager builds a LocalJobManager with the given limits
+// and runs the real setupSemaphores; unlike VerifNewLocalJobManager it keeps
+// the process-count semaphore setupSemaphores derives from the rlimit.
+func VerifNewProdLocalJobManager(maxCores, maxMemGB int, maxVmemMB int64,
+	settings *JobManagerSettings, limitLoadavg bool) *LocalJobManager {
+	self := &LocalJobManager{
+		jobSettings: settings,
+		jobDone:     make(chan struct{}, 1),
+		maxCores:    maxCores,
+		maxMemGB:    maxMemGB,
+		maxVmemMB:   maxVmemMB,
+		limitLoad:   limitLoadavg,
+	}
+	self.setupSemaphores()
+	return self
+}
+
+// VerifRefreshResources is what StepNodes does before stepping.
+func (self *LocalJobManager) VerifRefreshResources(localMode bool) error {
+	return self.refreshResources(localMode)
+}
+
+// VerifRefreshObs is what refreshResources looks at, read with the same
+// functions: free memory, the usage of this process's CHILDREN (the process
+// itself excluded), the idle cores as refreshResources converts the load
+// average, the process rlimit and the user's process count.
+type VerifRefreshObs struct {
+	ActualFree int64  `json:"actual_free"`
+	Rss        int64  `json:"rss"`
+	Vmem       int64  `json:"vmem"`
+	Procs      int    `json:"procs"`
+	IdleCenti  int64  `json:"idle_centi"`
+	RlimCur    int64  `json:"rlim_cur"`
+	RlimMax    int64  `json:"rlim_max"`
+	UserProcs  int    `json:"user_procs"`
+	Err        string `json:"err,omitempty"`
+}
+
+func VerifObserveForRefresh() VerifRefreshObs {
+	var o VerifRefreshObs
+	var sysMem MemInfo
+	if err := sysMem.Get(); err != nil {
+		o.Err = err.Error()
+	}
+	o.ActualFree = sysMem.ActualFree
+	usedMem, err := GetProcessTreeMemory(os.Getpid(), false, nil)
+	if err != nil {
+		o.Err = err.Error()
+	}
+	o.Rss, o.Vmem, o.Procs = usedMem.Rss, usedMem.Vmem, usedMem.Procs
+	var load LoadAverage
+	if err := load.Get(); err != nil {
+		o.Err = err.Error()
+	}
+	o.IdleCenti = int64((float64(runtime.NumCPU()) - load.One + 0.9) * 100)
+	if rlim, err := GetMaxProcs(); err != nil {
+		o.Err = err.Error()
+	} else {
+		o.RlimCur, o.RlimMax = rlimCur(rlim), rlimMax(rlim)
+	}
+	if n, err := GetUserProcessCount(); err != nil {
+		o.Err = err.Error()
+	} else {
+		o.UserProcs = n
+	}
+	return o
+}
